@@ -1515,7 +1515,8 @@ class random:  # noqa: N801
     def _missing(*a, **k):
         raise ShimMissing("np.random")
 
-    multivariate_normal = choice = normal = uniform = seed = rand = randn = _missing
+    multivariate_normal = normal = uniform = seed = rand = randn = _missing
+    choice = staticmethod(_np.random.choice)  # only used for random source names
 
 
 # ------------------------------------------------------------------------------------------------
